@@ -767,7 +767,11 @@ struct Extractor {
           bo["term"] = nodeId(F, T);
           bo["termcls"] = T->getStmtClassName();
         }
-        if (const Stmt *TC = B->getTerminatorCondition(true)) bo["cond"] = nodeId(F, TC);
+        // "cond": the last condition evaluated in this block (for `if (a && b)` the block that ends in the IfStmt
+        // tests `b`); "fullcond": the whole controlling expression of the terminator.
+        if (const Expr *LC = B->getLastCondition()) bo["cond"] = nodeId(F, LC);
+        else if (const Stmt *TC = B->getTerminatorCondition(true)) bo["cond"] = nodeId(F, TC);
+        if (const Stmt *TC = B->getTerminatorCondition(true)) bo["fullcond"] = nodeId(F, TC);
         if (B->hasNoReturnElement()) bo["noreturn"] = true;
         blocks.push_back(std::move(bo));
       }
